@@ -18,22 +18,35 @@ Inductive sop :=
 | SIncrease (v : N)              (* MAX_DATA frame *)
 | SRevise (rejected : bool) (v : N).
 
-(* controller, outstanding credits (None = dropped), bytes posted as fresh so far *)
-Record sst := mkss { ss_c : sctl; ss_cr : list (option N); ss_posted : N }.
+Fixpoint outstanding (l : list (option N)) : N :=
+  match l with
+  | [] => 0
+  | Some v :: t => v + outstanding t
+  | None :: t => outstanding t
+  end.
 
-(* None = an arithmetic panic of the Rust (u64 underflow) *)
-Definition s_step (st : sst) (o : sop) : option sst :=
+(* controller, outstanding credits (None = dropped), and the two quantities the property speaks
+   about (they are not state of the Rust): [ss_posted] = bytes posted as fresh since the last
+   rejected 0-RTT attempt (since the beginning if there was none: a rejection discards everything
+   sent so far and the server's new initial_max_data counts from zero); [ss_slack] = the unused
+   budget that Credits taken BEFORE the last rejection still held at that moment (0 when no Credit
+   is alive across a rejection, which is how DataStreams uses the controller: the Credit lives
+   inside try_load_data_into) *)
+Record sst := mkss { ss_c : sctl; ss_cr : list (option N); ss_posted : N; ss_slack : N }.
+
+(* None = an arithmetic panic of the Rust (u64 underflow).  [fx]: see Model/Flow.v sc_revise_with *)
+Definition s_step (fx : bool) (st : sst) (o : sop) : option sst :=
   match o with
   | SCredit q =>
     match sc_credit (ss_c st) q with
-    | Some (c', av, _) => Some (mkss c' (ss_cr st ++ [Some av]) (ss_posted st))
+    | Some (c', av, _) => Some (mkss c' (ss_cr st ++ [Some av]) (ss_posted st) (ss_slack st))
     | None => None
     end
   | SPost i n =>
     match nth_error (ss_cr st) i with
     | Some (Some av) =>
       match credit_post av n with
-      | Some av' => Some (mkss (ss_c st) (set_nth (ss_cr st) i (Some av')) (ss_posted st + n))
+      | Some av' => Some (mkss (ss_c st) (set_nth (ss_cr st) i (Some av')) (ss_posted st + n) (ss_slack st))
       | None => None
       end
     | _ => Some st
@@ -42,34 +55,30 @@ Definition s_step (st : sst) (o : sop) : option sst :=
     match nth_error (ss_cr st) i with
     | Some (Some av) =>
       match sc_return_back (ss_c st) av with
-      | Some c' => Some (mkss c' (set_nth (ss_cr st) i None) (ss_posted st))
+      | Some c' => Some (mkss c' (set_nth (ss_cr st) i None) (ss_posted st) (ss_slack st))
       | None => None
       end
     | _ => Some st
     end
-  | SIncrease v => Some (mkss (sc_increase_limit (ss_c st) v) (ss_cr st) (ss_posted st))
-  | SRevise rej v => Some (mkss (sc_revise (ss_c st) rej v) (ss_cr st) (ss_posted st))
+  | SIncrease v => Some (mkss (sc_increase_limit (ss_c st) v) (ss_cr st) (ss_posted st) (ss_slack st))
+  | SRevise false v => Some (mkss (sc_revise_with fx (ss_c st) false v) (ss_cr st) (ss_posted st) (ss_slack st))
+  | SRevise true v => Some (mkss (sc_revise_with fx (ss_c st) true v) (ss_cr st) 0 (outstanding (ss_cr st)))
   end.
 
-Fixpoint s_exec (st : sst) (ops : list sop) : option sst :=
+Fixpoint s_exec (fx : bool) (st : sst) (ops : list sop) : option sst :=
   match ops with
   | [] => Some st
-  | o :: rest => match s_step st o with Some st' => s_exec st' rest | None => None end
-  end.
-
-Fixpoint outstanding (l : list (option N)) : N :=
-  match l with
-  | [] => 0
-  | Some v :: t => v + outstanding t
-  | None :: t => outstanding t
+  | o :: rest => match s_step fx st o with Some st' => s_exec fx st' rest | None => None end
   end.
 
 (* the accounting identity: every charged byte is either posted as fresh or still held by a live
-   credit; and the charge never exceeds the limit, so `max_data - sent_data` cannot underflow *)
+   credit (up to the budget that straddled the last rejection); and the charge never exceeds the
+   limit, so `max_data - sent_data` cannot underflow *)
 Definition Sinv (st : sst) : Prop :=
-  sent_data (ss_c st) = ss_posted st + outstanding (ss_cr st)
+  sent_data (ss_c st) + ss_slack st = ss_posted st + outstanding (ss_cr st)
   /\ sent_data (ss_c st) <= max_data (ss_c st).
 
+(* the only step at which the limit may legitimately go down *)
 Definition sop_ok (o : sop) : Prop := match o with SRevise true _ => False | _ => True end.
 
 Lemma outstanding_app l x : outstanding (l ++ [Some x]) = outstanding l + x.
@@ -84,9 +93,17 @@ Proof.
   - cbn [set_nth]. specialize (IH i H). destruct h; cbn [outstanding]; lia.
 Qed.
 
-Lemma Sinv_step st o st' : sop_ok o -> Sinv st -> s_step st o = Some st' -> Sinv st'.
+Lemma outstanding_nth l i av : nth_error l i = Some (Some av) -> av <= outstanding l.
 Proof.
-  intros OK [Hs Hle] H. destruct o as [q|i n|i|v|rej v]; cbn [s_step] in H.
+  revert i. induction l as [|h t IH]; intros [|i] E; cbn in E; try discriminate.
+  - inversion E; subst. cbn [outstanding]. lia.
+  - specialize (IH i E). destruct h; cbn [outstanding]; lia.
+Qed.
+
+(* the repaired controller keeps the invariant along EVERY step, a rejected handshake included *)
+Lemma Sinv_step st o st' : Sinv st -> s_step true st o = Some st' -> Sinv st'.
+Proof.
+  intros [Hs Hle] H. destruct o as [q|i n|i|v|rej v]; cbn [s_step] in H.
   - unfold sc_credit, sc_available in H.
     destruct (N.leb_spec (sent_data (ss_c st)) (max_data (ss_c st))); [|lia].
     unfold sc_commit, sc_available in H. cbn [sent_data max_data flow_limited] in H.
@@ -95,30 +112,34 @@ Proof.
     clearbody qq.
     destruct (N.leb_spec (sent_data (ss_c st) + qq) (max_data (ss_c st))); [|lia].
     destruct ((max_data (ss_c st) - (sent_data (ss_c st) + qq) =? 0) && negb (flow_limited (ss_c st)));
-      inversion H; subst; unfold Sinv; cbn [ss_c ss_cr ss_posted sent_data max_data];
+      inversion H; subst; unfold Sinv; cbn [ss_c ss_cr ss_posted ss_slack sent_data max_data];
       rewrite outstanding_app; lia.
   - destruct (nth_error (ss_cr st) i) as [[av|]|] eqn:E; try (inversion H; subst; split; assumption).
     unfold credit_post in H. destruct (N.leb_spec n av); [|discriminate].
-    inversion H; subst. unfold Sinv. cbn [ss_c ss_cr ss_posted].
-    pose proof (outstanding_set _ _ _ (Some (av - n)) E). cbn in H1. lia.
+    inversion H; subst. unfold Sinv. cbn [ss_c ss_cr ss_posted ss_slack].
+    pose proof (outstanding_set _ _ _ (Some (av - n)) E) as H1. cbn in H1. lia.
   - destruct (nth_error (ss_cr st) i) as [[av|]|] eqn:E; try (inversion H; subst; split; assumption).
     unfold sc_return_back in H. destruct (N.leb_spec av (sent_data (ss_c st))); [|discriminate].
     unfold sc_available in H. cbn [sent_data max_data] in H.
     destruct (N.leb_spec (sent_data (ss_c st) - av) (max_data (ss_c st))); [|discriminate].
-    inversion H; subst. unfold Sinv. cbn [ss_c ss_cr ss_posted sent_data max_data].
-    pose proof (outstanding_set _ _ _ None E). cbn in H2. lia.
-  - inversion H; subst. unfold Sinv, sc_increase_limit. cbn [ss_c ss_cr ss_posted].
+    inversion H; subst. unfold Sinv. cbn [ss_c ss_cr ss_posted ss_slack sent_data max_data].
+    pose proof (outstanding_set _ _ _ None E) as H2. cbn in H2. lia.
+  - inversion H; subst. unfold Sinv, sc_increase_limit. cbn [ss_c ss_cr ss_posted ss_slack].
     destruct (N.ltb_spec (max_data (ss_c st)) v); cbn [sent_data max_data]; lia.
-  - destruct rej; [contradiction|]. inversion H; subst. unfold Sinv, sc_revise, sc_increase_limit.
-    cbn [ss_c ss_cr ss_posted].
-    destruct (N.ltb_spec (max_data (ss_c st)) v); cbn [sent_data max_data]; lia.
+  - destruct rej; inversion H; subst; unfold Sinv, sc_revise_with, sc_increase_limit;
+      cbn [ss_c ss_cr ss_posted ss_slack sent_data max_data flow_limited].
+    + destruct (N.ltb_spec 0 v); cbn [sent_data max_data]; lia.
+    + destruct (N.ltb_spec (max_data (ss_c st)) v); cbn [sent_data max_data]; lia.
 Qed.
 
-(* under the invariant the controller itself never hits an arithmetic panic: the only way to get
-   None is a caller posting more than the credit it holds *)
+(* under the invariant the controller itself never hits an arithmetic panic: the only ways to get
+   None are a caller posting more than the credit it holds, or a caller returning a Credit whose
+   unused budget was taken before a rejection (then ss_slack > 0) *)
 Lemma s_step_total st o :
-  Sinv st -> s_step st o = None ->
-  exists i n av, o = SPost i n /\ nth_error (ss_cr st) i = Some (Some av) /\ av < n.
+  Sinv st -> s_step true st o = None ->
+  exists i av, nth_error (ss_cr st) i = Some (Some av)
+               /\ ((exists n, o = SPost i n /\ av < n)
+                   \/ (o = SDrop i /\ sent_data (ss_c st) < av /\ 0 < ss_slack st)).
 Proof.
   intros [Hs Hle] H. destruct o as [q|i n|i|v|rej v]; cbn [s_step] in H; try discriminate.
   - exfalso. unfold sc_credit, sc_available in H.
@@ -132,58 +153,119 @@ Proof.
       discriminate.
   - destruct (nth_error (ss_cr st) i) as [[av|]|] eqn:E; try discriminate.
     unfold credit_post in H. destruct (N.leb_spec n av); [discriminate|].
-    exists i, n, av. auto.
-  - exfalso. destruct (nth_error (ss_cr st) i) as [[av|]|] eqn:E; try discriminate.
-    assert (av <= outstanding (ss_cr st)).
-    { clear -E. revert i E. induction (ss_cr st) as [|h t IH]; intros [|i] E; cbn in E; try discriminate.
-      - inversion E; subst. cbn [outstanding]. lia.
-      - specialize (IH i E). destruct h; cbn [outstanding]; lia. }
-    unfold sc_return_back in H. destruct (N.leb_spec av (sent_data (ss_c st))); [|lia].
-    unfold sc_available in H. cbn [sent_data max_data] in H.
-    destruct (N.leb_spec (sent_data (ss_c st) - av) (max_data (ss_c st))); [discriminate|lia].
+    exists i, av. split; [exact E|]. left. exists n. auto.
+  - destruct (nth_error (ss_cr st) i) as [[av|]|] eqn:E; try discriminate.
+    pose proof (outstanding_nth _ _ _ E) as Hav.
+    exists i, av. split; [exact E|]. right. split; [reflexivity|].
+    unfold sc_return_back in H. destruct (N.leb_spec av (sent_data (ss_c st))).
+    + exfalso. unfold sc_available in H. cbn [sent_data max_data] in H.
+      destruct (N.leb_spec (sent_data (ss_c st) - av) (max_data (ss_c st))); [discriminate|lia].
+    + split; lia.
+  - destruct rej; discriminate.
 Qed.
 
-Definition s_init (initial : N) : sst := mkss (sctl_new initial) [] 0.
+Definition s_init (initial : N) : sst := mkss (sctl_new initial) [] 0 0.
 
 Lemma Sinv_init m : Sinv (s_init m).
 Proof. unfold Sinv, s_init, sctl_new. cbn. lia. Qed.
 
-Lemma p_c11_conn_limit ops m st :
-  Forall sop_ok ops -> s_exec (s_init m) ops = Some st ->
-  Sinv st /\ ss_posted st <= max_data (ss_c st)
-  /\ sc_available (ss_c st) = Some (max_data (ss_c st) - sent_data (ss_c st))
-  /\ (outstanding (ss_cr st) = 0 -> sent_data (ss_c st) = ss_posted st).
+Lemma Sinv_exec ops st0 st : Sinv st0 -> s_exec true st0 ops = Some st -> Sinv st.
 Proof.
-  intros F H.
-  assert (I : Sinv st).
-  { pose proof (Sinv_init m) as I0. revert I0 H. generalize (s_init m).
-    induction F as [|o rest Ho F IH]; intros s0 I0 H; cbn [s_exec] in H.
-    - inversion H; subst; assumption.
-    - destruct (s_step s0 o) eqn:E; [|discriminate]. eapply IH; [|exact H]. eapply Sinv_step; eauto. }
+  revert st0. induction ops as [|o rest IH]; intros s0 I0 H; cbn [s_exec] in H.
+  - inversion H; subst; assumption.
+  - destruct (s_step true s0 o) eqn:E; [|discriminate]. eapply IH; [|exact H]. eapply Sinv_step; eauto.
+Qed.
+
+(* full strength: every op list, rejected handshakes included *)
+Lemma p_c11_conn_limit ops m st :
+  s_exec true (s_init m) ops = Some st ->
+  Sinv st /\ ss_posted st <= max_data (ss_c st) + ss_slack st
+  /\ sc_available (ss_c st) = Some (max_data (ss_c st) - sent_data (ss_c st))
+  /\ (ss_slack st = 0 -> outstanding (ss_cr st) = 0 -> sent_data (ss_c st) = ss_posted st).
+Proof.
+  intros H. pose proof (Sinv_exec ops _ _ (Sinv_init m) H) as I.
   split; [exact I|]. destruct I as [Hs Hle].
   split; [lia|]. split.
   - unfold sc_available. destruct (N.leb_spec (sent_data (ss_c st)) (max_data (ss_c st))); [reflexivity|lia].
-  - intro Hz. lia.
+  - intros Hk Hz. lia.
 Qed.
 
-(* no panic along the way either, as long as callers post within their credit *)
-Lemma p_c11_conn_no_underflow ops m :
-  Forall sop_ok ops -> s_exec (s_init m) ops = None ->
-  exists pre i n rest st av, ops = pre ++ SPost i n :: rest /\ s_exec (s_init m) pre = Some st
-                             /\ nth_error (ss_cr st) i = Some (Some av) /\ av < n.
+(* ss_slack is 0 unless a Credit held unused budget at the moment of a rejection *)
+Definition quiet_step (st : sst) (o : sop) : Prop :=
+  match o with SRevise true _ => outstanding (ss_cr st) = 0 | _ => True end.
+
+Lemma slack_step fx st o st' : s_step fx st o = Some st' -> ss_slack st = 0 -> quiet_step st o -> ss_slack st' = 0.
 Proof.
-  intros F. pose proof (Sinv_init m) as I0. revert I0. generalize (s_init m).
-  induction F as [|o rest Ho F IH]; intros s0 I0 H; cbn [s_exec] in H; [discriminate|].
-  destruct (s_step s0 o) as [s1|] eqn:E.
-  - destruct (IH s1 (Sinv_step _ _ _ Ho I0 E) H) as (pre & i & n & rest' & st & av & -> & Hp & Hn & Hl).
-    exists (o :: pre), i, n, rest', st, av. cbn [app s_exec]. rewrite E. auto.
-  - destruct (s_step_total _ _ I0 E) as (i & n & av & -> & Hn & Hl).
-    exists [], i, n, rest, s0, av. cbn. auto.
+  intros H Z Q. destruct o as [q|i n|i|v|rej v]; cbn [s_step] in H.
+  - destruct (sc_credit (ss_c st) q) as [[[c' av] b]|]; inversion H; subst; exact Z.
+  - destruct (nth_error (ss_cr st) i) as [[av|]|]; try (inversion H; subst; exact Z).
+    destruct (credit_post av n); inversion H; subst; exact Z.
+  - destruct (nth_error (ss_cr st) i) as [[av|]|]; try (inversion H; subst; exact Z).
+    destruct (sc_return_back (ss_c st) av); inversion H; subst; exact Z.
+  - inversion H; subst; exact Z.
+  - destruct rej; inversion H; subst; cbn [ss_slack]; [exact Q|exact Z].
+Qed.
+
+Fixpoint s_quiet (fx : bool) (st : sst) (ops : list sop) : Prop :=
+  match ops with
+  | [] => True
+  | o :: rest => quiet_step st o /\ match s_step fx st o with Some st' => s_quiet fx st' rest | None => True end
+  end.
+
+(* the statement in the form "fresh bytes since the last rejection <= most recent limit", for
+   callers that never keep a Credit across a rejected handshake *)
+Lemma p_c11_conn_limit_quiet ops m st :
+  s_quiet true (s_init m) ops -> s_exec true (s_init m) ops = Some st ->
+  ss_slack st = 0 /\ sent_data (ss_c st) = ss_posted st + outstanding (ss_cr st)
+  /\ ss_posted st <= max_data (ss_c st).
+Proof.
+  intros Q H.
+  assert (Z : ss_slack st = 0).
+  { assert (Z0 : ss_slack (s_init m) = 0) by reflexivity. revert Z0 Q H. generalize (s_init m).
+    induction ops as [|o rest IH]; intros s0 Z0 Q H; cbn [s_exec s_quiet] in *.
+    - inversion H; subst; exact Z0.
+    - destruct Q as [Q1 Q2]. destruct (s_step true s0 o) as [s1|] eqn:E; [|discriminate].
+      eapply IH; [|exact Q2|exact H]. eapply slack_step; eauto. }
+  destruct (p_c11_conn_limit ops m st H) as ([Hs Hle] & Hp & _). lia.
+Qed.
+
+(* no panic along the way either, as long as callers post within their credit and do not return
+   a Credit taken before a rejection *)
+Lemma p_c11_conn_no_underflow ops m :
+  s_exec true (s_init m) ops = None ->
+  exists pre o rest st i av,
+    ops = pre ++ o :: rest /\ s_exec true (s_init m) pre = Some st
+    /\ nth_error (ss_cr st) i = Some (Some av)
+    /\ ((exists n, o = SPost i n /\ av < n)
+        \/ (o = SDrop i /\ sent_data (ss_c st) < av /\ 0 < ss_slack st)).
+Proof.
+  pose proof (Sinv_init m) as I0. revert I0. generalize (s_init m).
+  induction ops as [|o rest IH]; intros s0 I0 H; cbn [s_exec] in H; [discriminate|].
+  destruct (s_step true s0 o) as [s1|] eqn:E.
+  - destruct (IH s1 (Sinv_step _ _ _ I0 E) H) as (pre & o' & rest' & st & i & av & -> & Hp & Hn & Hl).
+    exists (o :: pre), o', rest', st, i, av. cbn [app s_exec]. rewrite E. auto.
+  - destruct (s_step_total _ _ I0 E) as (i & av & Hn & Hl).
+    exists [], o, rest, s0, i, av. cbn. auto.
+Qed.
+
+(* as it was (F34): the same history - every credit returned before the rejection, nobody posts
+   beyond a credit - ends in the arithmetic panic of credit() *)
+Lemma p_c11_conn_limit_asis_refuted :
+  exists ops m st,
+    s_exec false (s_init m) ops = Some st /\ ss_slack st = 0 /\ outstanding (ss_cr st) = 0
+    /\ ~ sent_data (ss_c st) <= max_data (ss_c st)
+    /\ s_step false st (SCredit 10) = None
+    /\ exists st', s_exec true (s_init m) (ops ++ [SCredit 10]) = Some st'.
+Proof.
+  exists [SCredit 800; SPost 0 800; SDrop 0; SRevise true 500], 1000.
+  eexists. split; [vm_compute; reflexivity|].
+  split; [reflexivity|]. split; [reflexivity|]. split; [cbn; lia|].
+  split; [vm_compute; reflexivity|]. eexists. vm_compute. reflexivity.
 Qed.
 
 (* a retransmission is posted as 0 fresh bytes: it moves nothing *)
-Lemma p_c11_retransmission_free st i st' :
-  s_step st (SPost i 0) = Some st' -> ss_posted st' = ss_posted st /\ ss_c st' = ss_c st.
+Lemma p_c11_retransmission_free fx st i st' :
+  s_step fx st (SPost i 0) = Some st' -> ss_posted st' = ss_posted st /\ ss_c st' = ss_c st.
 Proof.
   cbn [s_step]. destruct (nth_error (ss_cr st) i) as [[av|]|]; intro H.
   - unfold credit_post in H. destruct (N.leb_spec 0 av); [|lia]. inversion H; subst. cbn. split; [lia|reflexivity].
@@ -191,9 +273,9 @@ Proof.
   - inversion H; subst; auto.
 Qed.
 
-(* limit only grows outside rejection *)
-Lemma p_c11_send_limit_monotone st o st' :
-  sop_ok o -> s_step st o = Some st' -> max_data (ss_c st) <= max_data (ss_c st').
+(* the limit only grows, except at a rejection (where the server's new value replaces it) *)
+Lemma p_c11_send_limit_monotone fx st o st' :
+  sop_ok o -> s_step fx st o = Some st' -> max_data (ss_c st) <= max_data (ss_c st').
 Proof.
   intros OK H. destruct o as [q|i n|i|v|rej v]; cbn [s_step] in H.
   - unfold sc_credit in H. destruct (sc_available (ss_c st)); [|discriminate].
@@ -206,8 +288,17 @@ Proof.
     destruct (sc_available _); inversion H; subst; cbn; lia.
   - inversion H; subst. cbn. unfold sc_increase_limit.
     destruct (N.ltb_spec (max_data (ss_c st)) v); cbn; lia.
-  - destruct rej; [contradiction|]. inversion H; subst. cbn. unfold sc_revise, sc_increase_limit.
+  - destruct rej; [contradiction|]. inversion H; subst. cbn. unfold sc_revise_with, sc_increase_limit.
     destruct (N.ltb_spec (max_data (ss_c st)) v); cbn; lia.
+Qed.
+
+(* at a rejection the limit becomes exactly the server's new value and the charge restarts *)
+Lemma p_c11_revise_rejected s v :
+  max_data (sc_revise s true v) = v /\ sent_data (sc_revise s true v) = 0
+  /\ sent_data (sc_revise_asis s true v) = sent_data s.
+Proof.
+  unfold sc_revise, sc_revise_asis, sc_revise_with, sc_increase_limit. cbn [max_data sent_data].
+  destruct (N.ltb_spec 0 v); cbn [max_data sent_data]; split; try split; try reflexivity; lia.
 Qed.
 
 (* ---------------------------------------------------------------- receive side *)
